@@ -26,6 +26,13 @@ MEMPOOL_HARNESSES = [
     {'name': 'h_mempool_stale', 'src': 'real/h_mempool.cpp', 'entry': 'h_mempool', 'repo_srcs': srcsets_real.REAL, 'defines': ['MODE_STALE'], 'covers': [1], 'jobs': 2,
      'obligations': ['REAL MemPool::cleanUp on a pool holding 1..2 connected ATVs whose VBK block fell behind the old-blocks window: no freed memory is touched (engine use-after-free check), stale payloads are forgotten'],
      'rungs': {'quick': [{'bound': '1..2 connected ATVs on a VBK block 3 blocks behind the VBK tip, old-blocks window 1 (pool state constructed directly: what a successful submit<ATV> leaves)', 'timeout': 200}], 'thorough': [{'bound': 'as quick', 'timeout': 400}]}},
+    {'name': 'h_mempool_reject', 'src': 'real/h_mempool.cpp', 'entry': 'h_mempool', 'repo_srcs': srcsets_real.REAL, 'defines': ['MODE_REJECT'], 'covers': [1, 2], 'jobs': 3,
+     'obligations': ['REAL MemPool::generatePopData with a connected ATV that is contextually invalid on the tip (endorsed block on another fork): the ATV is not offered, the ALT payload index and all trees are exactly as before (the temporary block leaves no trace), and the returned PopData activates in the next block',
+                     'a contextually valid connected ATV is offered'],
+     'rungs': {'quick': [{'bound': 'ALT chain 1-2 plus fork block 3; one connected ATV endorsing block 1, 2 or 3 (pool state constructed directly: what a successful submit<ATV> leaves)', 'timeout': 200}], 'thorough': [{'bound': 'as quick', 'timeout': 400}]}},
+    {'name': 'h_mempool_dup', 'src': 'real/h_mempool.cpp', 'entry': 'h_mempool', 'repo_srcs': srcsets_real.REAL, 'defines': ['MODE_DUP'], 'covers': [1, 2], 'jobs': 2,
+     'obligations': ['REAL MemPool::removeAll with a VTB that is connected once or twice (resubmission of a connected payload): afterwards neither the per-type map nor the VBK relations hold it, and generatePopData never returns it again'],
+     'rungs': {'quick': [{'bound': 'one VTB connected 1..2 times on VBK block 3 (pool state constructed directly), removeAll, generatePopData', 'timeout': 200}], 'thorough': [{'bound': 'as quick', 'timeout': 400}]}},
 ]
 FIN_HARNESSES = [
     {'name': 'h_realfin', 'src': 'real/h_realfin.cpp', 'entry': 'h_realfin', 'repo_srcs': srcsets_real.REAL, 'covers': [1, 2, 3], 'jobs': 8,
